@@ -22,7 +22,7 @@ PLACE=$(cat $OUT/demo/*.txt $OUT/demo/*.md $OUT/meta.json 2>/dev/null | grep -oE
 CRATE=$(echo $PLACE | cut -d/ -f1)
 TESTNAME=$(basename $PLACE .rs)
 echo "demo $DEMO -> $PLACE (crate $CRATE test $TESTNAME)" >> $LOG
-cp $DEMO $WT/$PLACE
+mkdir -p $(dirname $WT/$PLACE); cp $DEMO $WT/$PLACE
 # other demo support files (data) are copied next to it
 for f in $OUT/demo/*; do case "$f" in *.rs|*.txt|*.md) ;; *) cp -r "$f" $WT/$(dirname $PLACE)/ ;; esac; done
 # without the change
